@@ -110,8 +110,16 @@ def run_case(i, seed, tier):
                 'nontrivial': True, 'shape': 'exact-fill/%s/%d' % (cfg.key(), len(ops)),
                 'sample': {'cfg': cfg.to_json(), 'profile': 'exact-fill', 'n_ops': len(ops)}, 'counters': counters}
     nops = g.rng.choice([3, 6, 10, 15, 22, 30]) if tier == 'quick' else g.rng.choice([4, 10, 20, 30, 45, 60])
-    h = common.History(cfg, seed * 1000003 + i, profile)
-    h.extend(nops)
+    if i % 40 == 23:
+        # Rock Ridge relocation: directories to depth 8..12, twins of one name, custom relocation name
+        from harness.props import c08
+        cfg = g.cfg(index=i + seed * 7, require=lambda c: c.rr is not None and c.level < 4)
+        h = c08.deep_history(g, cfg, seed * 1000003 + i)
+        profile = 'deep'
+        counters['deep_cases'] = 1
+    else:
+        h = common.History(cfg, seed * 1000003 + i, profile)
+        h.extend(nops)
     ops = list(h.ops)
     h.sess.close()
     counters['refused_by_library'] = len(h.refused)
